@@ -5,6 +5,7 @@ cd /repo || exit 9
 if ! git diff --quiet; then echo "repo dirty"; exit 9; fi
 git apply "$patch" || { echo "patch does not apply"; exit 9; }
 cd /verif
+export VERIF_EVIDENCE_DIR=/verif/out/mutant_evidence
 for p in "$@"; do
   python3 run_check.py $p --tier ${TIER:-quick} > /tmp/mut_$p.log 2>&1; rc=$?
   echo "$p rc=$rc $(grep -c '^VIOLATION' /tmp/mut_$p.log) violation line(s); $(grep -m1 -A1 '^VIOLATION' /tmp/mut_$p.log | tail -1)"
